@@ -1,7 +1,5 @@
 // C06 corollaries over the closed forms
 use crate::props::c00_affine::*;
-use crate::props::c04_averages::*;
-use crate::props::c07_ranges::*;
 
 // CenterOfGravity is 0 on a constant non-zero window:  sum_k k c / (n c) = (n+1)/2
 pub open spec fn tri(n: int) -> real decreases n { if n <= 0 { 0real } else { tri(n - 1) + (n as real) } }
